@@ -272,7 +272,10 @@ func (m *model) step(b blockInfo, prev, cur *view) {
 	// the operation behind every block-reward clause is the reward distribution of BeginBlock; what
 	// discriminates root causes is the schedule regime, whether a year's books already overran, and
 	// the size class of the delegation pool (it selects the split formulas)
-	facts := "op=begin-block|regime=" + m.regimeName() + "|year-books=" + books + "|delegpool=" + pc
+	facts := "op=begin-block|regime=" + m.regimeName() + "|year-books=" + books
+	if books == "within-supply" {
+		facts += "|delegpool=" + pc
+	}
 	m.blockFacts[h] = "regime=" + m.regimeName() + "|year-books=" + books
 	m.log("h=%d t=+%ds ev=%s regime=%s N=%d pulled(fresh)=%s credited=%s (delegators %s) pool=%s delegpool=%s", h, secs(b.T.Sub(m.genesis)), b.Ev.Name, m.regimeName(), m.cycleN, fresh, credited, dDeleg, prev.rewardPool, prev.delegPool)
 
